@@ -2,12 +2,14 @@ package main
 
 import (
 	"encoding/binary"
+	"errors"
 	"fmt"
 	"net"
 	"strings"
 	"sync"
 	"time"
 
+	"github.com/hugelgupf/p9/linux"
 	"github.com/hugelgupf/p9/p9"
 )
 
@@ -44,11 +46,14 @@ func runKpool(r *rng, n int) {
 
 // muxServer is a scripted fake server for the multiplexing runs: it collects a batch of
 // requests and answers them in a chosen order, optionally injecting a fault.
+func muxErrno(fid uint32) uint32 { return 200 + fid%97 }
+
 type muxServer struct {
-	c     net.Conn
-	bound map[uint32]bool
-	reuse []string
-	mu    sync.Mutex
+	refuse bool // a third of the Tgetattr are refused (errnos must reach their own callers)
+	c      net.Conn
+	bound  map[uint32]bool
+	reuse  []string
+	mu     sync.Mutex
 }
 
 func (s *muxServer) read() (byte, uint16, []byte, error) {
@@ -82,6 +87,10 @@ func (s *muxServer) reply(t byte, tag uint16, body []byte) []byte {
 		return rawFrame(121, tag, nil)
 	case 24:
 		fid := binary.LittleEndian.Uint32(body)
+		if s.refuse && fid%3 == 1 {
+			// refused with an errno that identifies the request
+			return rawFrame(7, tag, le32(muxErrno(fid)))
+		}
 		attr := make([]byte, 4+4+4+15*8)
 		return rawFrame(25, tag, cat(le64(0x3fff), []byte{0}, le32(uint32(tag)), le64(uint64(fid)), attr))
 	}
@@ -98,7 +107,7 @@ func runKmux(r *rng, n int) {
 		fault := []string{"none", "none", "close", "badtag", "wrongtype", "garbage", "shortread"}[r.intn(7)]
 		faultAt := r.intn(batch)
 		a, b := connPair()
-		srv := &muxServer{c: b, bound: map[uint32]bool{}}
+		srv := &muxServer{c: b, bound: map[uint32]bool{}, refuse: r.chance(1, 2)}
 		// handshake + attach + one clone per worker, answered in lock-step
 		done := make(chan struct{})
 		var files []p9.File
@@ -207,9 +216,16 @@ func runKmux(r *rng, n int) {
 			srv.c.Close()
 			<-wdone
 		}
-		foreign, errs, oks := 0, 0, 0
+		foreign, errs, oks, wrongerr := 0, 0, 0, 0
 		for _, res := range results {
 			switch {
+			case res.err != nil && srv.refuse && res.fid%3 == 1 && fault == "none":
+				// refused by the server: the caller must see the errno sent for *its* request
+				var e linux.Errno
+				if !errors.As(res.err, &e) || uint32(e) != muxErrno(uint32(res.fid)) {
+					wrongerr++
+				}
+				oks++
 			case res.err != nil:
 				errs++
 			case res.path != res.fid:
@@ -262,7 +278,7 @@ func runKmux(r *rng, n int) {
 		if later == "hang" || (later == "ok" && (fault == "close" || fault == "shortread")) {
 			laterOK = 0
 		}
-		emit("kmux batch=%d fault=%s at=%d => foreign=%d hung=%d duptag=%d reuse=%s errsok=%d laterok=%d", batch, fault, faultAt, foreign, hung, dt, strings.Join(srv.reuse, ","), errsOK, laterOK)
+		emit("kmux batch=%d fault=%s at=%d => foreign=%d hung=%d duptag=%d reuse=%s errsok=%d laterok=%d wrongerr=%d", batch, fault, faultAt, foreign, hung, dt, strings.Join(srv.reuse, ","), errsOK, laterOK, wrongerr)
 	}
 }
 
